@@ -198,6 +198,9 @@ BIG = [[(j * 9 + i) * 0.5 - 7.0 for i in range(9)] for j in range(5)]
 BIG[1][3] = float("nan")
 BIG[4][8] = float("nan")
 PATTERNS["big"] = BIG   # 5 x 9 cells (45, two of them empty): subsets of 16 .. 43 cells
+# the same logical grids stored with a descending latitude / longitude coordinate (as many gridded products are)
+PATTERNS["nan_latdesc"] = PATTERNS["nan"]
+PATTERNS["ramp_londesc"] = PATTERNS["ramp"]
 
 
 def axes(pattern):
@@ -234,6 +237,10 @@ def creator(pattern, dim):
     times = pd.to_datetime([f"2001-{m:02d}-16" for m in range(1, 13)])
     grid = np.array(PATTERNS[pattern], dtype="float64")
     LATS, LONS = axes(pattern)
+    if pattern.endswith("_latdesc"):
+        grid, LATS = grid[::-1, :], tuple(reversed(LATS))
+    if pattern.endswith("_londesc"):
+        grid, LONS = grid[:, ::-1], tuple(reversed(LONS))
     if dim == "2d":
         data = np.broadcast_to(grid, (12, *grid.shape)).copy()
         ds = xr.Dataset({"t_an": (("time", "lat", "lon"), data)}, coords=dict(time=times, lat=list(LATS), lon=list(LONS)))
